@@ -34,7 +34,7 @@ func UpdateCase(r *rand.Rand, name string, o UpdateOpts) *Case {
 	ctxD := decl(src, "Ctx", Struct(F("ID", Basic("string"))))
 	fields := map[string]vref.FieldSpec{}
 	var methLines, convLines []string
-	kinds := []string{"basic", "basic", "namedbasic", "struct", "slice", "map", "ptrbasic", "ptrstruct", "chan", "any", "identslice", "identptr", "ignore", "missing", "rename", "func", "basic2ptr", "funcfield", "computed", "mapfunc", "mapfunclist", "mapfuncany", "namedslice", "namedmap", "whole", "wholefunc", "nestedptr"}
+	kinds := []string{"basic", "basic", "namedbasic", "struct", "slice", "map", "ptrbasic", "ptrstruct", "chan", "any", "identslice", "identptr", "ignore", "missing", "rename", "func", "basic2ptr", "funcfield", "computed", "mapfunc", "mapfunclist", "mapfuncany", "namedslice", "namedmap", "whole", "wholefunc", "nestedptr", "slice2ptr", "struct2ptr"}
 	needSkip, needMissing := false, false
 	computed := false
 	funcSrc := ""
@@ -142,6 +142,13 @@ func UpdateCase(r *rand.Rand, name string, o UpdateOpts) *Case {
 			methLines = append(methLines, "map "+f+"In "+f+"Out | "+fn)
 			fields[f+"Out"] = vref.FieldSpec{Path: []string{f + "In"}, Func: "fn:" + fn}
 			mapFuncs = append(mapFuncs, fn)
+		case "slice2ptr":
+			// inline T -> *U of a composite
+			sS.Fields = append(sS.Fields, F(f, Slice(Basic(b))))
+			tS.Fields = append(tS.Fields, F(f, Ptr(Slice(Basic(b)))))
+		case "struct2ptr":
+			sS.Fields = append(sS.Fields, F(f, Struct(F("X", Basic(b)))))
+			tS.Fields = append(tS.Fields, F(f, Ptr(Struct(F("X", Basic(b))))))
 		case "basic2ptr":
 			sS.Fields = append(sS.Fields, F(f, Basic(b)))
 			tS.Fields = append(tS.Fields, F(f, Ptr(Basic(b))))
@@ -188,6 +195,15 @@ func UpdateCase(r *rand.Rand, name string, o UpdateOpts) *Case {
 			methLines = append(methLines, "map "+f+"Src "+f+"Tgt")
 			fields[f+"Tgt"] = vref.FieldSpec{Path: []string{f + "Src"}}
 		}
+	}
+	// a goverter:default line on an update method is not used by it and must not disturb the field conversions
+	// (an inline T -> *U position next to it shows whether it does)
+	defLine := !unnamedSource && r.Intn(6) == 0
+	if defLine {
+		sS.Fields = append(sS.Fields, F("DefP", Slice(Basic("int"))))
+		tS.Fields = append(tS.Fields, F("DefP", Ptr(Slice(Basic("int")))))
+		methLines = append(methLines, "default NewDef")
+		c.Feature("defaultline", "true")
 	}
 	if len(sS.Fields) == 0 {
 		sS.Fields = append(sS.Fields, F("Base", Basic("int")))
@@ -299,6 +315,9 @@ func UpdateCase(r *rand.Rand, name string, o UpdateOpts) *Case {
 		nv = 45
 	}
 	cv.Spec = &vref.Spec{Seed: o.Seed, NValues: nv, Monitors: []string{"update"}, Conv: flagsConv}
+	if defLine {
+		funcSrc += fmt.Sprintf("func NewDef() tgt.%s { return tgt.%s{} }\n\n", T.Name, T.Name)
+	}
 	for _, fn := range wholeFuncs {
 		if sT.K == KPtr && r.Intn(2) == 0 {
 			funcSrc += fmt.Sprintf("func %s(s *src.%s) string { return fmt.Sprintf(\"%s:%%d\", s.WBase) }\n\n", fn, S.Name, fn)
@@ -307,7 +326,7 @@ func UpdateCase(r *rand.Rand, name string, o UpdateOpts) *Case {
 		}
 		mapFuncs = append(mapFuncs, fn)
 	}
-	if computed || len(mapFuncs) > 0 {
+	if computed || len(mapFuncs) > 0 || defLine {
 		qual := "conv."
 		cv.GlueImports = []string{fmt.Sprintf("conv %q", c.Root+"/conv")}
 		if o.Format == "variables" {
@@ -316,8 +335,8 @@ func UpdateCase(r *rand.Rand, name string, o UpdateOpts) *Case {
 		}
 		cv.Callables = map[string]string{}
 		src := "package conv\n\nimport \"fmt\"\n\nvar _ = fmt.Sprint\n\n"
-		if len(wholeFuncs) > 0 {
-			src = "package conv\n\nimport (\n\t\"fmt\"\n\t\"" + c.Root + "/src\"\n)\n\nvar _ = fmt.Sprint\n\n"
+		if len(wholeFuncs) > 0 || defLine {
+			src = "package conv\n\nimport (\n\t\"fmt\"\n\t\"" + c.Root + "/src\"\n\t\"" + c.Root + "/tgt\"\n)\n\nvar _ = fmt.Sprint\nvar _ src." + S.Name + "\nvar _ tgt." + T.Name + "\n\n"
 		}
 		if computed {
 			src += "func Make() string { return \"made\" }\n\n"
@@ -327,6 +346,9 @@ func UpdateCase(r *rand.Rand, name string, o UpdateOpts) *Case {
 		for _, fn := range mapFuncs {
 			cv.Spec.Funcs = append(cv.Spec.Funcs, &vref.FuncSpec{Key: "fn:" + fn, Kind: "map", Roles: []string{"source"}})
 			cv.Callables["fn:"+fn] = qual + fn
+		}
+		if len(cv.Callables) == 0 {
+			cv.GlueImports = nil // nothing of conv is called by the glue
 		}
 		conv.Files = map[string]string{"funcs.go": src + funcSrc}
 	}
